@@ -110,19 +110,25 @@ def cases(tier, seed):
         optkeys += ['x+v', 'x+j3', 'x+shuf1+rep', 'x+buf']
     bad = worlds.rot(BAD, seed)
     for k in (1, 2, 3):
-        for shape in ('indep', 'chain', 'unit'):
+        for shape in ('indep', 'chain', 'unit', 'dup'):
             if shape == 'unit' and k == 1:
+                continue
+            if shape == 'dup' and k != 3:
                 continue
             for counts in itertools.product(range(1, T + 1), repeat=k):
                 total = sum(counts)
+                if shape == 'dup' and counts[0] + counts[1] != 2:
+                    continue          # (all tests sit on the third layer: one world per total)
                 for pos in range(total):
                     for kind in bad:
                         for ok in optkeys:
+                            if shape == 'dup' and ('nie' in ok or 'cf' in ok):
+                                continue
                             if ('nietop' in ok or '+cf' in ok) and _layer_of(shape, counts, pos) is None:
                                 continue      # the bad test is a unit test: no layer / no child involved
                             yield [k, shape, list(counts), ['t', pos, kind], ok]
                 for li in range(k):
-                    if shape == 'unit' and li == 0:
+                    if (shape == 'unit' and li == 0) or shape == 'dup':
                         continue
                     for ok in optkeys:
                         if 'nietop' in ok or '+cf' in ok:
@@ -132,6 +138,8 @@ def cases(tier, seed):
 
 def _layer_of(shape, counts, pos):
     """index of the layer that holds test number pos (None: the unit layer)"""
+    if shape == 'dup':
+        return 2
     i = 0
     for li, c in enumerate(counts):
         if pos < i + c:
@@ -155,17 +163,25 @@ def build_spec(case):
             lay = None
         else:
             bases = []
+            if shape == 'dup' and i == 2:
+                # two distinct layer objects with ONE name (a layer class
+                # instantiated twice) are the bases of the layer with the tests
+                bases = [names[0], names[1]]
             if shape == 'chain' and i > 0:
                 bases = [names[i - 1]]
             if shape == 'unit' and i > 1:
                 bases = [names[i - 1]]
             L = {'n': nm, 'b': bases, 'k': 'c', 'h': list(worlds.HOOKS_SD)}
+            if shape == 'dup':
+                L['k'] = 'i'
+                if i < 2:
+                    L['rn'] = 'Srv'
             if bad[0] == 'L' and bad[1] == i:
                 L['f'] = {'setUp': bad[2]}
             if 'nietop' in ok.split('+') and bad[0] == 't' and _layer_of(shape, counts, bad[1]) == i:
                 L['f'] = {'tearDown': 'NIE'}
             layers.append(L)
-            lay = nm
+            lay = nm if shape != 'dup' else names[2]
         for j in range(counts[i]):
             if bad[0] == 't':
                 if idx < bad[1]:
